@@ -76,8 +76,8 @@ def collect(prop, tier):
             if g["error"]:
                 raise vlib.Infra("TLC error generating from Hub2: %s\n%s" % (g["error"], g["tail"]))
             outs.append((fam, list(vlib.tlc_lines(g["out_path"], "TEST"))))
-        limit = 60 if q else 1500
-        share = {"plain": 0.2, "rich": 0.2, "rich2": 0.15, "warm": 0.25, "wrongA": 0.1, "wrongB": 0.1}
+        limit = 72 if q else 1500
+        share = {"plain": 0.17, "rich": 0.18, "rich2": 0.15, "warm": 0.25, "wrongA": 0.125, "wrongB": 0.125}
         scripts = []
         for fam, recs in outs:
             fs, seen = [], set()
@@ -123,6 +123,19 @@ def collect(prop, tier):
                 d = dial_at(s)
                 if d < 0:
                     return 0
+                if fam.startswith("wrong"):
+                    # the hub with the wrong stored SHIP id (W) should get a request from its peer while it does not trust it yet, and
+                    # then go past hello: auto accept switched on before the request, or the user's Register while it is pending
+                    w, o = fam[-1], "AB".replace(fam[-1], "")
+                    ops = s["ops"]
+                    od = [i for i, x in enumerate(ops) if x["h"] == o and x["op"] in ("Register", "Appear")]
+                    if len({ops[i]["op"] for i in od}) < 2:
+                        return 1
+                    arrive = max(min(i for i in od if ops[i]["op"] == "Register"), min(i for i in od if ops[i]["op"] == "Appear"))
+                    wreg = [i for i, x in enumerate(ops) if x["h"] == w and x["op"] == "Register"]
+                    auto = any(x["h"] == w and x["op"] == "AutoOn" for x in ops[:arrive]) and not any(x["h"] == w and x["op"] == "AutoOff" for x in ops[:arrive])
+                    pend = any(i > arrive and ops[i].get("st") == "setup" for i in wreg) and not any(i < arrive for i in wreg)
+                    return 1 + 3 * int(auto and not any(i < arrive for i in wreg)) + 3 * int(pend)
                 return 1 + len({o["op"] for o in s["ops"][d + 1:] if o["op"] in ("Cancel", "Unregister", "Disconnect", "Cut", "Restart", "Shutdown", "AutoOff", "AutoOn")})
             # deterministic in the seed: half of a family's scripts are those with the most kinds of disturbance after a
             # connection was set up, the rest are drawn without looking (one in five sets up no connection at all)
